@@ -95,6 +95,9 @@ fn one(acc: &mut Acc, input: usize, cfg: u64) {
     let strip = cfg & 4 != 0;
     let defs_k = ((cfg >> 3) % 3) as usize;
     let incs_k = ((cfg >> 3) / 3 % 4) as usize;
+    // the top file in the working directory, or in a subdirectory that also holds a copy of the header
+    // (a directory that is neither the working directory nor an include path is not searched)
+    let in_subdir = (cfg >> 3) / 12 % 2 == 1;
     let d1 = format!("{}_d1", tag);
     let d2 = format!("{}_d2", tag);
     let inc = format!("{}_inc.svh", tag);
@@ -108,7 +111,14 @@ fn one(acc: &mut Acc, input: usize, cfg: u64) {
     let badutf = format!("{}_latin1.svh", tag);
     std::fs::write(&badutf, b"wire caf\xe9;\n").ok();
     let src = INPUTS[input].replace("{BADUTF}", &badutf).replace("{DIR}", &d1).replace("{INC}", &inc).replace("{INC2}", &inc2).replace("{MISSING}", &format!("{}_missing.svh", tag));
-    let file = format!("{}_top.sv", tag);
+    let sub = format!("{}_sub", tag);
+    let file = if in_subdir {
+        let _ = std::fs::create_dir_all(&sub);
+        std::fs::write(Path::new(&sub).join(&inc), "`define FROM_INC 3\nwire from_sub;\n").ok();
+        format!("{}/{}_top.sv", sub, tag)
+    } else {
+        format!("{}_top.sv", tag)
+    };
     std::fs::write(&file, &src).ok();
     let path = Path::new(&file);
     let defs: Defs = match defs_k {
@@ -123,7 +133,7 @@ fn one(acc: &mut Acc, input: usize, cfg: u64) {
         _ => vec![PathBuf::from(&d2), PathBuf::from(&d1)],
     };
     let lib = src.contains("library") || src.contains("config c");
-    let case = json!({"input": src, "ignore_include": ignore, "allow_incomplete": incomplete, "strip_comments": strip, "defines": defs_k, "include_paths": incs});
+    let case = json!({"input": src, "top_in_subdirectory": in_subdir, "ignore_include": ignore, "allow_incomplete": incomplete, "strip_comments": strip, "defines": defs_k, "include_paths": incs});
     acc.nontrivial += 1;
     acc.traces += 1;
     // preprocess (file) vs preprocess_str for this (strip, ignore) pair
@@ -234,12 +244,12 @@ fn cleanup(files: &[&str]) {
 
 pub fn build(tier: Tier) -> Check<'static> {
     let mut c = Check::new("C20", tier, "6/C20");
-    c.rule = "52 inputs (comments, CRLF / CR line ends, a byte-order mark, includes whose copies differ per include path, nested and repeated includes, macros, conditionals, junk tails, preprocess and parse errors, missing include, an included file that is not UTF-8, an included directory, library-map inputs, non-ASCII) x ignore_include x allow_incomplete x strip_comments x 3 define tables x 4 include-path lists, each written to a real file: preprocess vs preprocess_str for the flag pair, and (strip off) the four routes to a tree; plus top files that cannot be read (missing, not UTF-8, a directory) through the five file-based routes; compared on text, origin of every byte / leaf, define table with origins, error; non-trivial = every configuration, distinct by construction".into();
+    c.rule = "52 inputs (comments, CRLF / CR line ends, a byte-order mark, includes whose copies differ per include path, nested and repeated includes, macros, conditionals, junk tails, preprocess and parse errors, missing include, an included file that is not UTF-8, an included directory, library-map inputs, non-ASCII) x ignore_include x allow_incomplete x strip_comments x 3 define tables x 4 include-path lists x top file in the working directory / in a subdirectory next to a copy of the header, each written to a real file: preprocess vs preprocess_str for the flag pair, and (strip off) the four routes to a tree; plus top files that cannot be read (missing, not UTF-8, a directory) through the five file-based routes; compared on text, origin of every byte / leaf, define table with origins, error; non-trivial = every configuration, distinct by construction".into();
     c.assumptions = vec!["the process changes its working directory to /verif/.work/C20/cwd; file names are unique per worker thread".into()];
     let cwd = crate::core::run::verif_dir().join(".work").join("C20").join("cwd");
     let _ = std::fs::create_dir_all(&cwd);
     std::env::set_current_dir(&cwd).expect("chdir");
-    let n_cfg = 8 * 3 * 4;
+    let n_cfg = 8 * 3 * 4 * 2;
     let _ = tier;
     c.parts.push(Part::new("unreadable-top-files", 4 * 8, "top file missing / not UTF-8 (source, library map) / a directory x ignore_include x allow_incomplete x strip_comments: the five file-based routes report one and the same error", move |i, acc| unreadable(acc, (i / 8) as usize, i % 8)));
     c.parts.push(Part::new("configurations", (INPUTS.len() as u64) * n_cfg, "input x flags x defines x include paths", move |i, acc| one(acc, (i / n_cfg) as usize, i % n_cfg)));
